@@ -294,7 +294,7 @@ pub fn c06_dfs_dist_array_n4() {
     dfs_dist_array::<4>();
 }
 
-// @verif prop=C06 tier=thorough fl=f2 role=dfs-pred/array t=3600 mem=24
+// @verif prop=C06 tier=exp fl=f2 role=dfs-pred/array t=3600 mem=24
 #[cfg_attr(kani, kani::proof)]
 #[cfg_attr(kani, kani::unwind(6))]
 pub fn c06_dfs_pred_array_n4() {
